@@ -2,6 +2,7 @@ package mon
 
 import (
 	"fmt"
+	"golang.org/x/text/language"
 	"runtime"
 	"sort"
 	"strconv"
@@ -86,6 +87,9 @@ func levelPrefix(top, sub int) string {
 // expectReport computes the expected text of every field of the report of o's level.
 func expectReport(o lib.Obj, langName string) map[string]string {
 	lang := tagOf(langName)
+	if otherLanguage(langName) {
+		lang = language.English // a language that is neither English nor Japanese: English text
+	}
 	exp := map[string]string{}
 	top := o.Kind.Level()
 	for sub := 0; sub <= top; sub++ {
@@ -169,12 +173,25 @@ func checkReportHold(w *W, st *c17stats, o lib.Obj, s string, langName string, w
 	c := decodeCase(o.Kind, s, false)
 	c.Type = "report"
 	c.Args = map[string]string{"lang": langName, "with_language_option": fmt.Sprint(withLang)}
-	rep, pan := lib.NewReport(o, tagOf(langName), withLang)
+	var rep lib.Report
+	var pan *lib.Panic
+	if first, last, two := strings.Cut(langName, ","); two {
+		// two language options: the last one is the language requested
+		c.Args["language_options"] = langName
+		rep, pan = lib.NewReportLangs(o, tagOf(first), tagOf(last))
+		langName = last
+	} else {
+		rep, pan = lib.NewReport(o, tagOf(langName), withLang)
+	}
 	if pan != nil {
 		w.Violate(Violation{Monitor: "C17", Check: "report construction does not panic on a decoded object", Case: c, Observed: pan.Value})
 		return
 	}
 	got, odd := rep.Flatten()
+	if hold == nil {
+		// the client edits the report it received (every exported string field): later reports must not show it
+		defer func() { w.CountN("report_fields_overwritten_by_the_client_after_the_check", rep.Scribble()) }()
+	}
 	if hold != nil {
 		(*hold).recheck(w) // the report built before this one
 		*hold = &heldReport{rep: rep, snap: got, c: c}
@@ -262,6 +279,10 @@ func runC17(r *Run) int {
 				}
 				if rng.IntN(4) == 0 {
 					checkReport(w, st, o, s, "en", false)
+				}
+				if rng.IntN(4) == 0 { // two language options, the last one wins
+					pairs := []string{"ja,und", "ja,zero", "ja,fr", "en,ja", "ja,en", "fr,ja", "und,ja", "ja,und-JP", "ja,jam", "zero,ja"}
+					checkReport(w, st, o, s, pairs[rng.IntN(len(pairs))], true)
 				}
 				// reports of the lower views of the same object
 				if level == 2 && rng.IntN(3) == 0 {
@@ -388,4 +409,11 @@ func replayC17(r *Run, c Case) {
 		checkReport(w, st, o, s, l, true)
 	}
 	checkReport(w, st, o, s, "en", false)
+	if lo := c.Args["language_options"]; lo != "" {
+		checkReport(w, st, o, s, lo, true)
+	}
+	// after the client has overwritten the fields of the reports above: fresh reports again
+	for _, l := range reportLangs[:3] {
+		checkReport(w, st, o, s, l, true)
+	}
 }
